@@ -145,6 +145,22 @@ func granPlan(g int, r *prng.R) simio.ReadPlan {
 	return simio.ReadPlan{Name: "whole"}
 }
 
+// hasRun reports whether b holds n consecutive bytes c.
+func hasRun(b []byte, c byte, n int) bool {
+	run := 0
+	for _, x := range b {
+		if x == c {
+			run++
+			if run >= n {
+				return true
+			}
+		} else {
+			run = 0
+		}
+	}
+	return false
+}
+
 // readsToEnd lists the readers that cannot know their document is complete before the stream says so (every format
 // but TTML, whose decoder stops at the end of the root element): a nil error from them while the source still holds
 // unread bytes - behind which the injected fault was waiting - means they stopped listening, not that all went well.
@@ -166,6 +182,8 @@ func c18ReadViolationAt(sc ReadScenario, ref, o canon.Outcome, fired bool, cues,
 		class, why = "no-termination-under-fault", "the reader did not terminate within the event budget"
 	case o.Class == "ok" && cues >= 0 && o.Items != cues:
 		class, why = "silent-truncation", fmt.Sprintf("nil error with %d of %d cues", o.Items, cues)
+	case o.Class == "ok" && sc.MustRun > 0 && !hasRun(o.Canon, 'L', sc.MustRun):
+		class, why = "silent-truncation", fmt.Sprintf("nil error although the text of the %d-byte line is not in the result", sc.MustRun)
 	case o.Class == "ok" && cues < 0 && o.Key() != ref.Key():
 		class, why = "silent-truncation", fmt.Sprintf("nil error with a result that differs from the fault-free one (%d vs %d cues)", o.Items, ref.Items)
 	default:
@@ -740,6 +758,9 @@ func RunC18(cfg Config) (*ShardResult, error) {
 						}
 						for _, reader := range corpus.ReaderConfigs(f) {
 							sc := ReadScenario{Doc: d.Name, Reader: reader, Data: d.Data, Plan: p}
+							if where == "text" {
+								sc.MustRun = L
+							}
 							v, sr := checkC18Read(sc, d.Cues)
 							res.Evaluations++
 							res.SimEvents += int64(sr.St.Reads)
@@ -751,6 +772,41 @@ func RunC18(cfg Config) (*ShardResult, error) {
 							if addV(v) {
 								return res, nil
 							}
+						}
+					}
+				}
+			}
+		}
+	}
+	// ---------- B3. the over-long line is the last one of the stream: unterminated, or closed by a lone CR, or by
+	// LF; the stream ends with EOF on its own or together with the last bytes. Whether such a line fits is known
+	// to the reader only when the stream ends, and it must not depend on how the end is announced.
+	for _, f := range []string{"srt", "vtt", "ssa"} {
+		for _, L := range lim.longLens {
+			if L > 1<<17 {
+				continue
+			}
+			d := corpus.LongLine(f, 5, 4, "text", L)
+			end := bytes.LastIndexByte(d.Data, 'L') + 1
+			for ti, term := range []string{"", "\r", "\n", "\r\n"} {
+				data := append(append([]byte{}, d.Data[:end]...), term...)
+				name := fmt.Sprintf("%s-final-term%d", d.Name, ti)
+				if !cfg.Mine(Key64("longline3", name)) {
+					continue
+				}
+				for pi, p := range []simio.ReadPlan{{Name: "whole"}, {Name: "whole+eof", EOFWithData: true}, {Name: "chunks+eof", Rest: 4096, EOFWithData: true}, {Name: "chunks", Rest: 4096}} {
+					for _, reader := range corpus.ReaderConfigs(f) {
+						sc := ReadScenario{Doc: name, Reader: reader, Data: data, Plan: p, MustRun: L}
+						v, sr := checkC18Read(sc, d.Cues)
+						res.Evaluations++
+						res.SimEvents += int64(sr.St.Reads)
+						res.Note("ll3", reader, name, fmt.Sprint(pi), fmt.Sprint(v != nil, sr.St.Reads))
+						res.Probes["overlong_final_line"]++
+						if seen.add(Key64("ll3", reader, name, fmt.Sprint(pi))) {
+							res.Distinct++
+						}
+						if addV(v) {
+							return res, nil
 						}
 					}
 				}
